@@ -5,6 +5,9 @@ An expression is a JSON list:
   ["n", 3] ["s", "x"] ["b", true] ["e", "#N/A"]        literals
   ["r", b, s, r1, c1, r2, c2]                          reference, abstract coords
   ["nm", k]                                            defined name k of the world
+  ["w", b, s, r1, c1, r2, c2, "row"|"col"]             whole rows r1..r2 / columns
+                                                       c1..c2; the rectangle is the
+                                                       part of them inside the window
   ["op", "+", x, y]                                    + - * & and comparisons
   ["f", "SUM", x, ...]                                 function call
   ["raw", "text"]                                      verbatim text (fault worlds)
@@ -82,6 +85,19 @@ class Placement:
         return '%s!%s' % (self.sheet_id(b, s),
                           self.rect_a1(b, s, r1, c1, r2, c2))
 
+    def whole_a1(self, e, dollar=0):
+        """'3:4' / 'C:D' of a whole-row / whole-column node."""
+        _, b, s, r1, c1, r2, c2, kind = e
+        (row1, col1), (row2, col2) = self.rc(b, s, r1, c1), \
+            self.rc(b, s, r2, c2)
+        d1, d2 = ('$' if dollar & 1 else ''), ('$' if dollar & 2 else '')
+        if kind == 'row':
+            return '%s%d:%s%d' % (d1, row1, d2, row2)
+        return '%s%s:%s%s' % (d1, col_letters(col1), d2, col_letters(col2))
+
+    def whole_id(self, e):
+        return '%s!%s' % (self.sheet_id(e[1], e[2]), self.whole_a1(e))
+
     def name_id(self, b, k):
         return "'[%s]'!%s" % (self.file(b), self.d['names'][k].upper())
 
@@ -114,6 +130,10 @@ def refs_of(e):
         k = x[0]
         if k in ('r', 'nm'):
             out.append(x)
+        elif k == 'w':
+            # whole rows / columns: the cells it can hold are those of the
+            # window recorded when the reference was made
+            out.append(['r'] + x[1:7])
         elif k == 'x' and all(y[0] == 'r' for y in x[1:]):
             # only the common cells are referred to - none at all when the
             # areas do not meet (#NULL!, decided without reading any cell)
@@ -176,13 +196,17 @@ class Renderer:
         raise ValueError(e)
 
     def ref(self, e, host):
-        _, b, s, r1, c1, r2, c2 = e
+        whole = e[0] == 'w'
+        b, s, r1, c1, r2, c2 = e[1:7]
         st = self.style
         if self.mode == 'dict':
+            if whole:
+                return self.p.whole_id(e)
             return '%s!%s' % (self.p.sheet_id(b, s),
                               self.p.rect_a1(b, s, r1, c1, r2, c2))
         dollar = st.randrange(16) if st and st.random() < .3 else 0
-        a1 = self.p.rect_a1(b, s, r1, c1, r2, c2, dollar)
+        a1 = self.p.whole_a1(e, dollar) if whole else \
+            self.p.rect_a1(b, s, r1, c1, r2, c2, dollar)
         hb, hs = host
         if (b, s) == (hb, hs) and not (st and st.random() < .15):
             return a1
@@ -228,7 +252,7 @@ class Renderer:
             return '{%s}' % ';'.join(','.join(
                 self.lit(['n', v]) if not isinstance(v, str) else
                 self.lit(['s', v]) for v in row) for row in e[1])
-        if k == 'r':
+        if k in ('r', 'w'):
             return self.ref(e, host)
         if k == 'nm':
             return self.name(e, host)
